@@ -116,6 +116,10 @@ func runC15(k int, rng *Rng) CaseResult {
 	if !w.failed() {
 		w.SearchSweep(30)
 	}
+	if !w.failed() && k%3 == 0 {
+		// optional (pointer) string fields: constraints only reachable through a custom schema
+		stats.Count("ptr_observations", int64(w.ptrScenario(true, false)))
+	}
 	var sample interface{}
 	if k < sampleMax {
 		sample = map[string]interface{}{"config": cfg.String(), "ops": w.absOps, "invalid_writes": invalid}
